@@ -9,7 +9,7 @@ LEAN_MODULES = ["MpirProofs.Props.C01_algo"]
 THEOREMS = [
     "Mpir.MulAlgo.kara_mul_n_val",
     "Mpir.MulAlgo.toom3_interp_exact", "Mpir.MulAlgo.toom3_mul_val", "Mpir.MulAlgo.toom42_exact", "Mpir.MulAlgo.toom32_exact",
-    "Mpir.MulAlgo.toom4_interp_exact", "Mpir.MulAlgo.toom4_mul_val", "Mpir.MulAlgo.toom53_exact",
+    "Mpir.MulAlgo.toom3_eval_fits", "Mpir.MulAlgo.toom4_interp_exact", "Mpir.MulAlgo.toom4_mul_val", "Mpir.MulAlgo.toom53_exact",
     "Mpir.MulDispatch.mul_dispatch_safe", "Mpir.MulDispatch.mul_n_dispatch_safe", "Mpir.MulDispatch.sqr_dispatch_safe",
     "Mpir.FftParams.fft_params_sound_partial", "Mpir.FftParams.fft_params_sound", "Mpir.FftParams.fftTab_admissible",
     "Mpir.MulDispatch.params_are_valid",
@@ -209,12 +209,18 @@ def gen_ops(rng, tier, ctx=None):
 
     section(0.20)
     # ---- 7. FFT drivers
-    for n1 in range(1, 11 if quick else 25):
-        for n2 in range(1, 11 if quick else 25):
-            u, v = pair(rng, n1, n2, next_cls())
-            yield "mpn_mul_fft_main %s %s" % (vec(u), vec(v))
-    for _ in range(40 if quick else 400):
-        n1 = int(12 * (1500 / 12) ** rng.random()); n2 = int(1 + (n1 - 1) * rng.random() ** 2) if rng.random() < 0.7 else n1
+    def fft_main_ok(n1, n2):      # ASSERT(j1 + j2 - 1 > 2*n) of mul_fft_main.c:53 (depth 6, w 1: 28-bit coefficients, n = 64)
+        return n1 >= 1 and n2 >= 1 and ((n1 * 64 - 1) // 28 + 1) + ((n2 * 64 - 1) // 28 + 1) - 1 > 128
+    # smallest admissible sizes: all (n1, n2) with 57 <= n1 + n2 <= 57 + span (these end at depth 2..5 through FFT_TAB)
+    for tot in range(57, 57 + (12 if quick else 60)):
+        for n2 in sorted(set([1, 2, 3, tot // 4, tot // 2])):
+            n1 = tot - n2
+            if n1 >= n2 >= 1 and fft_main_ok(n1, n2) and spend(tot):
+                u, v = pair(rng, n1, n2, next_cls())
+                yield "mpn_mul_fft_main %s %s" % (vec(u), vec(v))
+    for _ in range(60 if quick else 400):
+        n1 = int(30 * (1500 / 30) ** rng.random()); n2 = int(1 + (n1 - 1) * rng.random() ** 2) if rng.random() < 0.7 else n1
+        if not fft_main_ok(n1, n2): continue
         u, v = pair(rng, n1, n2, next_cls())
         if spend(n1 + n2):
             yield "mpn_mul_fft_main %s %s" % (vec(u), vec(v))
